@@ -48,6 +48,7 @@ Fn(ps, va, b) == [k |-> "fn", ps |-> ps, va |-> va, b |-> b]
 Arr(es)       == [k |-> "arr", es |-> es]
 MapL(ks, es)  == [k |-> "map", ks |-> ks, es |-> es]
 Idx(e, i)     == [k |-> "idx", e |-> e, i |-> i]
+Slice(e, lo, hi) == [k |-> "slice", e |-> e, lo |-> lo, hi |-> hi]   \* e[lo:hi], constant bounds, -1 = omitted
 Sel(e, n)     == [k |-> "sel", e |-> e, n |-> n]
 Import(n)     == [k |-> "import", n |-> n]
 
@@ -197,6 +198,14 @@ Eval(e, env, st, d) ==
                    ELSE IF a.v.t = "map" /\ i.v.t = "str"
                    THEN (IF i.v.v \in DOMAIN i.st.heap[a.v.h] THEN OkR(i.st.heap[a.v.h][i.v.v], i.st) ELSE OkR(VUndef, i.st))
                    ELSE ErrR(VErr("NotIndexableError", ""), i.st)
+    [] e.k = "slice" ->     \* a slice is a value here: the families never write through one
+         LET a == Eval(e.e, env, st, d) IN
+         IF ~a.ok THEN a
+         ELSE IF a.v.t # "arr" THEN ErrR(VErr("unmodelled-op", "slice"), a.st)
+         ELSE LET lo == IF e.lo < 0 THEN 0 ELSE e.lo
+                  hi == IF e.hi < 0 THEN Len(a.v.v) ELSE e.hi IN
+              IF lo <= hi /\ hi <= Len(a.v.v) THEN OkR(VArr(SubSeq(a.v.v, lo + 1, hi)), a.st)
+              ELSE ErrR(VErr("unmodelled-op", "slice"), a.st)
     [] e.k = "sel" ->
          LET a == Eval(e.e, env, st, d) IN
          IF ~a.ok THEN a
@@ -431,6 +440,7 @@ ERefs(e, sc) ==
     [] e.k = "cond" -> ERefs(e.c, sc) \cup ERefs(e.a, sc) \cup ERefs(e.b, sc)
     [] e.k = "bin" -> ERefs(e.l, sc) \cup ERefs(e.r, sc)
     [] e.k = "idx" -> ERefs(e.e, sc) \cup ERefs(e.i, sc)
+    [] e.k = "slice" -> ERefs(e.e, sc)
     [] e.k = "sel" -> ERefs(e.e, sc)
     [] e.k = "import" -> {}
     [] e.k = "call" -> ERefs(e.f, sc) \cup ERefsL(e.as, 1, sc)
